@@ -497,21 +497,12 @@ class ExecutionState:
                         operation_id=operation_update.operation_id,
                     )
 
-        # Check if background checkpointing has failed
-        if self._checkpointing_failed.is_set():
-            # This will raise the stored BackgroundThreadError
-            self._checkpointing_failed.wait()
-
-        # Conditionally create completion event based on is_sync parameter
-        completion_event: CompletionEvent | None = (
-            CompletionEvent() if is_sync else None
-        )
-
-        # Create wrapper object for queue
-        queued_op = QueuedOperation(operation_update, completion_event)
-
-        # Enqueue the wrapper object (operation_update can be None for empty checkpoints)
-        self._checkpoint_queue.put(queued_op)
+                # Enqueue while still holding the lock: between the check above and the put() an
+                # ancestor could otherwise be handed its completion record, and this update would
+                # reach the backend after it.
+                completion_event = self._enqueue_checkpoint(operation_update, is_sync)
+        else:
+            completion_event = self._enqueue_checkpoint(operation_update, is_sync)
 
         # Conditionally wait for completion based on is_sync parameter
         if is_sync:
@@ -530,6 +521,27 @@ class ExecutionState:
             completion_event.wait()
         else:
             logger.debug("Enqueued checkpoint operation for asynchronous processing")
+
+    def _enqueue_checkpoint(
+        self, operation_update: OperationUpdate | None, is_sync: bool
+    ) -> CompletionEvent | None:
+        """Hand one checkpoint to the background thread; returns the event a synchronous caller waits on."""
+        # Check if background checkpointing has failed
+        if self._checkpointing_failed.is_set():
+            # This will raise the stored BackgroundThreadError
+            self._checkpointing_failed.wait()
+
+        # Conditionally create completion event based on is_sync parameter
+        completion_event: CompletionEvent | None = (
+            CompletionEvent() if is_sync else None
+        )
+
+        # Create wrapper object for queue
+        queued_op = QueuedOperation(operation_update, completion_event)
+
+        # Enqueue the wrapper object (operation_update can be None for empty checkpoints)
+        self._checkpoint_queue.put(queued_op)
+        return completion_event
 
     def create_checkpoint_sync(
         self,
